@@ -21,4 +21,6 @@ CONSTANTS
   LimWidth = 0
   GzIdx = {1}
   GzFrs = {"cl"}
+  GzDrops = {0}
+  GzRespFrs = {"cl"}
 CHECK_DEADLOCK FALSE
